@@ -21,9 +21,9 @@ CHECKS = {
             ASSUME + "DistLike laws (CDF(ICDF(p))=p, monotone) are refined by the family contracts of C05/C08. 'Directions distinct' for n_dim >= 3 is a bounded check.",
             TECH, "DESIGN.md 3 C01"),
     "C02": ("other",
-            "Deductive: cumsum_biggest_until (prefix/content/tight/order/last/warn, 1-D arrays, induction lemmas), cell_averaged_pdf (all 2-D/3-D structures, loop invariant), "
+            "Deductive: cumsum_biggest_until (prefix/content/tight/order/last/warn; 1-D arrays and 2-D / 3-D grids through ravel / unravel_index; induction lemmas), cell_averaged_pdf (all 2-D/3-D structures, loop invariant), "
             "cell_averaged_joint_pdf, _check_grid, _compute up to the erosion call (1-alpha, cell volume, fm, warning path, full structure). Bounded: real grids incl. N-D ravel, default limits.",
-            ASSUME + "Two paper lemmas about prefix masks (pigeonhole) are listed as trusted. N-D arrays reach cumsum_biggest_until through ravel/unravel_index (bounded only).",
+            ASSUME + "Two paper lemmas about prefix masks (pigeonhole) are listed as trusted; ravel / unravel_index are assumed to be mutually inverse bijections between flat positions and cells.",
             TECH + " + bounded run-time contracts", "DESIGN.md 3 C02"),
     "C03": ("other",
             "Deductive: DirectSamplingContour._compute for symbolic sample, alpha, deg_step: while-loop invariant (offset i = (1-alpha)-quantile of the projection on normal i), normals advance by the step, "
